@@ -545,43 +545,6 @@ def _walk_no_try(node):
             stack.extend(x for x in n if isinstance(x, (dict, list)))
 
 
-def rule_T11(ctx):
-    F = ctx.F
-    r = RuleResult("T11", "root-terminators: the loop that appends a root's end instructions considers every one of them (no early exit) and pushes the one it is looking at")
-    bf = [f for f in builder_fns(F) if f.get("name") == "build" and f.get("vis") == "Public"]
-    if not bf:
-        r.anchor_missing("build()", "public fn build not found")
-        return r
-    f = bf[0]
-    loops = []
-    for n in walk(f["hir"]):
-        if n.get("k") == "Match" and n.get("src") == "ForLoopDesugar":
-            st = n["scrut"].get("ty", "")
-            args = n["scrut"].get("args") or []
-            ity = args[0].get("ty", "") if args else ""
-            if ("(" + INSTR) in st or ("(" + INSTR) in ity:
-                loops.append(n)
-    uniq = {}
-    for lp in loops:
-        uniq.setdefault(loc(lp), lp)
-    loops = list(uniq.values())
-    r.floor("loops over end-instruction lists in build()", len(loops), 1)
-    for lp in loops:
-        exits = []
-        pushes = 0
-        for n in _walk_no_try(lp["arms"]):
-            if n.get("k") in ("Break", "Continue", "Ret") and not (n.get("exp") and any("desugar" in x for x in n["exp"])):
-                exits.append((n["k"], loc(n)))
-            if n.get("k") == "MethodCall" and n.get("def") == PUSH_INSTR:
-                pushes += 1
-        r.examine((f["path"], loc(lp)), True, {"loop": loc(lp), "early_exits": exits, "push_instruction_calls": pushes})
-        for k, w in exits:
-            r.finding(f["path"], "terminator-loop-exit:" + k, w, "the loop appending a root's end instructions can leave early (%s): a later end instruction (the JumpTo that re-joins, the EndExpression) would never be appended and the block would fall through" % k)
-        if pushes == 0:
-            r.finding(f["path"], "terminator-loop-no-push", loc(lp), "the end-instruction loop never pushes an instruction")
-    return r
-
-
 def rule_T12(ctx):
     F = ctx.F
     r = RuleResult("T12", "containing-expression inheritance: a child build node inherits its parent's containing_expression_jump; only a nested expression body and the tree root start a new one")
@@ -627,4 +590,108 @@ def rule_T12(ctx):
                 r.finding(f["path"], "containing-not-inherited:" + "/".join(sorted(kinds - {"inherited"})), loc(n),
                           "a child node is given containing_expression_jump from %s instead of inheriting its parent's: a reapply (^~) inside it would jump to the wrong entry point" % sorted(kinds - {"inherited"}))
     r.floor("BuildNode constructions", n_sites, 25)
+    return r
+
+
+# ---------------------------------------------------------------------------------------------------------------------
+# T11  root termination: the builder closes every root (expression body, conditional arm, right operand of a logical operator)
+#      by walking that root's list of end instructions.  The list must be walked to its end: the last entry is the control
+#      transfer (EndExpression, or the JumpTo that re-joins the code after the operator), and the only reason to skip an entry
+#      is that the very same (instruction, operand) pair is already the last instruction emitted.
+def _end_loops(f):
+    """for-loops whose loop variable (or a projection of it) is an argument of push_instruction inside the loop body."""
+    out = []
+    for n in walk(f["hir"]):
+        if n.get("k") != "Loop" or n.get("src") != "ForLoop":
+            continue
+        some_arm = None
+        for m in walk(n):
+            if m.get("k") == "Match" and m.get("src") == "ForLoopDesugar":
+                for arm in m["arms"]:
+                    binds = [b for b in walk(arm["pat"]) if b.get("k") == "Binding"]
+                    if binds:
+                        some_arm = (arm, binds)
+                break
+        if not some_arm:
+            continue
+        arm, binds = some_arm
+        lids = set(b["lid"] for b in binds)
+        pushes = []
+        for m in walk(arm["body"]):
+            if m.get("k") == "MethodCall" and m.get("m") == "push_instruction":
+                if any(x.get("k") == "Path" and x.get("lid") in lids for a in m["args"] for x in walk(a)):
+                    pushes.append(m)
+        if pushes:
+            out.append((n, arm, lids, pushes))
+    return out
+
+
+def end_loop_findings(f):
+    fnd = []
+    loops = _end_loops(f)
+    for loop, arm, lids, pushes in loops:
+        push_ids = set(id(p) for p in pushes)
+        # (a) no early exit
+        for m in walk(arm["body"]):
+            exp = m.get("exp") or []
+            if m.get("k") == "Break" and not any("ForLoop" in e for e in exp):
+                fnd.append(("early-exit:break", loc(m), "the loop over a root's end instructions is left early (break at %s): the entries after the one that matched - the JumpTo that "
+                            "re-joins the code after a logical operator - are never emitted" % loc(m)))
+            if m.get("k") == "Ret" and not any("QuestionMark" in e for e in exp):
+                fnd.append(("early-exit:return", loc(m), "the loop over a root's end instructions returns early at %s" % loc(m)))
+            if m.get("k") == "Continue" and not any("ForLoop" in e for e in exp):
+                pass
+        # (b) every alternative in the body either pushes the entry or skips it because the identical pair is already there
+        def has_push(e):
+            return any(id(x) in push_ids for x in walk(e))
+        def whole_eq(c):
+            for x in walk(c):
+                if x.get("k") == "Binary" and x.get("op") in ("==", "!="):
+                    projected = set(id(peel(y["e"])) for y in walk(x) if y.get("k") == "Field")
+                    for side in ("l", "r"):
+                        for y in walk(x[side]):
+                            if y.get("k") == "Path" and y.get("lid") in lids and id(y) not in projected:
+                                return True
+            return False
+        for m in walk(arm["body"]):
+            if m.get("k") == "Match" and m.get("src") == "Normal" and has_push(m):
+                for a in m["arms"]:
+                    if has_push(a["body"]):
+                        continue
+                    g = a.get("guard")
+                    if g is None or not whole_eq(g):
+                        fnd.append(("skip-without-identity", loc(a["pat"]), "an end instruction is skipped at %s without the guard `already-emitted == this entry` on the whole (instruction, operand) pair" % loc(a["pat"])))
+            if m.get("k") == "If" and (has_push(m.get("then") or {}) != has_push(m.get("else") or {})):
+                if not whole_eq(m["cond"]):
+                    fnd.append(("skip-without-identity", loc(m), "an end instruction is skipped at %s under a condition that does not compare the whole (instruction, operand) pair with the last instruction" % loc(m)))
+    return fnd, len(loops)
+
+
+def rule_T11(ctx):
+    F = ctx.F
+    r = RuleResult("T11", "root termination: the builder walks each root's end-instruction list to its end; an entry is skipped only when the identical pair is already the last instruction")
+    total = 0
+    for f in sorted(builder_fns(F), key=lambda f: f["path"]):
+        fnd, n = end_loop_findings(f)
+        total += n
+        if n:
+            r.examine((f["path"],), True, {"fn": f["path"], "end_instruction_loops": n, "violations": len(fnd)})
+        for inst, where, msg in fnd:
+            r.finding(f["path"], inst, where, msg)
+    r.floor("end-instruction emission loops in the builder", total, 1)
+    # the default end list of a root without one is EndExpression
+    b = [f for f in builder_fns(F) if f.get("name") == "build" and f.get("vis") == "Public"]
+    if b:
+        defaults = [callee_path for n in walk(b[0]["hir"]) if n.get("k") == "Tup" and "vec" in str(n.get("exp") or "") for callee_path in [path_def(peel(n["es"][0])) or ""]]
+        r.analysed["default_end_instruction"] = sorted(set(last(d) for d in defaults))
+        if defaults and not all(last(d) == "EndExpression" for d in defaults):
+            r.finding(b[0]["path"], "default-end:" + "/".join(sorted(set(last(d) for d in defaults))), loc(b[0]["hir"]), "a root with no end list is closed with %s instead of EndExpression" % sorted(set(last(d) for d in defaults)))
+    for f in F.fns_in("gfixture::t11::"):
+        if f["kind"] == "Closure":
+            continue
+        fnd, n = end_loop_findings(f)
+        if f["name"].startswith("ctl_"):
+            r.control(f["name"], bool(fnd))
+        elif f["name"].startswith("ok_"):
+            r.neg_control(f["name"], n >= 1 and not fnd)
     return r
